@@ -3,6 +3,6 @@
 set -e
 export GOFLAGS=-mod=mod GOPROXY=off GOSUMDB=off GOTOOLCHAIN=local
 cd /verif/harness && go1.26 test -tags verif -c -o /verif/build/h2.test ./h2
-/verif/build/h2.test -test.run '^TestEngine$' -engine $1 -seed $2 -n $3 -out /verif/build/$1.txt > /dev/null
+/verif/build/h2.test -test.run '^TestEngine$' -engine $1 -seed $2 -n $3 -out /verif/build/$1.txt > /dev/null || true
 /verif/lean/.lake/build/bin/rvdriver ${4:-$1} < /verif/build/$1.txt > /verif/build/$1.verdicts
 sed 's/@.*//; s/model=.*//' /verif/build/$1.verdicts | sort | uniq -c | sort -rn | head -${5:-20}
